@@ -523,7 +523,9 @@ impl<'a> Run<'a> {
                 let r = each!(&mut self.c, c => c.remove(&k).map(|v| v.read()));
                 self.trace.push(format!("{:?}", r));
                 let what = self.what(&format!("remove({k}) -> {:?}", r));
-                let sh = self.shadow.remove(&k);
+                // 2Q / ARC: a key that was not resident may be a ghost, and whether remove() forgets a
+                // ghost is not specified: it stays in the set of keys that may still be retained
+                let sh = if r.is_some() || self.c.reports_all() { self.shadow.remove(&k) } else { self.shadow.get(&k).copied() };
                 if p == BigProp::C02 {
                     if let Some(v) = r {
                         if sh != Some(v) {
@@ -786,13 +788,23 @@ fn arc_pair(n: usize, x: usize, y: usize, hit_recent: bool) -> Result<bool, Stri
         guard += 1;
     }
     // trim both ghost lists to the target lengths (remove() of a ghost key forgets it)
+    // (an implementation whose remove() leaves ghosts alone is legitimate: then the pair is
+    // simply not reached)
     while c.recent_evict_len() > x {
+        let before = c.recent_evict_len();
         let k = *c.recent_evict_keys_lru().next().unwrap();
         c.remove(&k);
+        if c.recent_evict_len() >= before {
+            return Ok(false);
+        }
     }
     while c.frequent_evict_len() > y {
+        let before = c.frequent_evict_len();
         let k = *c.frequent_evict_keys_lru().next().unwrap();
         c.remove(&k);
+        if c.frequent_evict_len() >= before {
+            return Ok(false);
+        }
     }
     if c.recent_evict_len() != x || c.frequent_evict_len() != y || x == 0 || y == 0 {
         return Ok(false);
